@@ -9,6 +9,9 @@ History syntax (one S-expression per case, parsed by lean/KrroodVerif/Drive/SG.l
     (clear)        SymbolGraph().clear(); SymbolGraph()
     (rel f s t)    PredicateClassRelation(s, t, <plain field f>).add_to_graph()
     (set f s t)    s.f = t  /  s.f.append(t)  /  s.f.add(t)   on the descriptor-managed field f
+    (lrm f s t) (ldel f s t) (lpop f s t)   the item t the user put into the managed LIST field f of s leaves it by a plain
+                   list operation MonitoredList does not hook: s.f.remove(t) / del s.f[i] / s.f.pop(i) (i = position of t);
+                   no-op unless t is in the list
     (mkq k c)      q_k = an(entity(let(C, None)))        (mkqd k c o ...)  q_k = an(entity(let(C, [o, ...])))
     (evalq k)      list(q_k.evaluate())                   (dropq k)         drop q_k, gc.collect()
     (query c)      mkq + evalq + dropq on a fresh query object; (queryd c o ...) with an explicit domain
@@ -74,10 +77,13 @@ from typing import Any, Dict, List, Optional, Tuple
 N_CLASSES = 13
 SUBS = {0: [1, 2, 4, 8, 9], 2: [3], 4: [5, 6], 5: [7], 6: [7], 10: [11]}
 FIRST_DYNAMIC_CLASS = 20
-# descriptor-managed fields are only written on instances of the class that declares them: for a subclass instance
-# (Mgr) krrood keys the inferred inverse by a different WrappedField (Mgr.member_of vs Emp.member_of) and records the
-# relation twice, on a fresh graph as well (not a matter of history; see build report)
+# descriptor-managed fields are only WRITTEN BY THE USER on instances of the class that declares them: for a subclass
+# instance (Mgr) krrood keys the inferred inverse by a different WrappedField (Mgr.member_of vs Emp.member_of) and records
+# the relation twice (and appends the item twice: mgr.member_of == [org, org]), on a fresh graph as well (not a matter of
+# history; F-C14-3). A subclass instance may be the TARGET of an assertion on the other side (org.members.add(mgr)): then
+# every relation of the Mgr is inferred through the subclass's view of the inherited field, once (EMP_TARGETS).
 EMP_LIKE = (2,)
+EMP_TARGETS = (2, 3)
 ORG_LIKE = (1,)
 # index 9 is the model's "strong reference that is no relation" (Chair.emp, Holder.item, attach): no field of that name
 FIELD_NAMES = ["works_for", "member_of", "members", "sub_of", "knows", "likes", "head_of", "manages", "employer",
@@ -816,6 +822,27 @@ class Runner:
             del a, b
             gc.collect()  # the inferred scalar inverse overwrote a value, which may have become (cyclic) garbage
 
+    def op_unlist(self, how: str, f: int, s: int, t: int):
+        """the item t the user put into the managed LIST field f of s leaves it by one of the list operations MonitoredList
+        inherits unchanged from `list` (lrm: remove(t) / ldel: del lst[i] / lpop: pop(i), i the position of the first
+        occurrence of t): the container is not told, the relation stays in the graph. (An item put there by inference is also
+        held by the container's `_inferred_items`: it stays alive as long as the owner does.)"""
+        if FIELD_KIND[f] != "list" or not (self._alive(s) and self._alive(t)):
+            return
+        a, b = self.wrefs[s](), self.wrefs[t]()
+        lst = getattr(a, FIELD_NAMES[f], None)
+        pos = [i for i, x in enumerate(lst)] if lst is not None else []
+        pos = [i for i in pos if lst[i] is b]
+        if pos:
+            if how == "lrm":
+                list.remove(lst, b)
+            elif how == "ldel":
+                del lst[pos[0]]
+            else:
+                lst.pop(pos[0])
+        del a, b, lst
+        gc.collect()  # the item that left may have become (cyclic) garbage
+
     def op_mkq(self, k: int, c: int, dom: Optional[List[int]]):
         from krrood.entity_query_language.entity import entity, let
         from krrood.entity_query_language.quantify_entity import an
@@ -977,6 +1004,8 @@ class Runner:
             self.op_rel(int(op[1]), int(op[2]), int(op[3]))
         elif name == "set":
             self.op_set(int(op[1]), int(op[2]), int(op[3]))
+        elif name in ("lrm", "ldel", "lpop"):
+            self.op_unlist(name, int(op[1]), int(op[2]), int(op[3]))
         elif name == "mkq":
             self.op_mkq(int(op[1]), int(op[2]), None)
         elif name == "mkqd":
@@ -1102,7 +1131,7 @@ def shift_op(op, d: int):
         return [n, _sh(op[1], d), _sh(op[2], d), op[3]]
     if n == "qstart":
         return [n, int(op[1]) + d, op[2]]
-    if n in ("rel", "set"):
+    if n in ("rel", "set", "lrm", "ldel", "lpop"):
         return [n, op[1], _sh(op[2], d), _sh(op[3], d)]
     if n == "mkq":
         return [n, int(op[1]) + d, op[2]]
@@ -1300,6 +1329,9 @@ class Gen:
         self.targets: set = set()  # labels that some relation / reference points to
         self.next_class = FIRST_DYNAMIC_CLASS
         self.parents: Dict[int, int] = {}  # classes defined by the history: class index -> parent
+        self.direct: List[Tuple[int, int, int]] = []    # (f, s, t): items the user put into a managed list field
+        self.inferred: List[Tuple[int, int, int]] = []  # (f, s, t): items (maybe) put into a list field by inference
+        self.sub_targets = False  # instances of a SUBCLASS (Mgr) as targets of Org.members.add
 
     def defclass(self):
         """a new subclass (of one of the classes in use, or of one defined earlier) comes into existence"""
@@ -1376,6 +1408,21 @@ class Gen:
         self.known[lab] = c
         return ["clone", lab, s_, self.rng.choice(hows)]
 
+    def unlist_op(self):
+        """an item the user put into a managed list field leaves it by a plain (un-hooked) list operation; now and then
+        aimed at an item that is there by inference only, or not at all (nothing happens then)"""
+        how = self.rng.choice(["lrm", "lrm", "ldel", "lpop"])
+        mine = [x for x in self.direct if x[1] in self.held]
+        if mine and self.rng.random() < 0.8:
+            x = self.rng.choice(mine)
+            self.direct.remove(x)
+            return [how, x[0], x[1], x[2]]
+        other = [x for x in self.inferred if x[1] in self.held and x[2] in self.known]
+        if other:
+            x = self.rng.choice(other)
+            return [how, x[0], x[1], x[2]]
+        return None
+
     def relchurn(self):
         """related temporaries discarded back to back, the last one kept: sources that die at once (no inverse field
         on the target holds them): Org.sub_of towards an Org, or a direct relation among non-Org instances"""
@@ -1435,6 +1482,8 @@ class Gen:
         if r < 0.55 and e is not None and o is not None:
             return ["set", 1, e, o]
         if r < 0.68 and e is not None and o is not None:
+            if self.sub_targets:
+                e = self.pick(EMP_TARGETS)
             return ["set", 2, o, e]
         o2 = self.pick(ORG_LIKE)
         if o is not None and o2 is not None and o != o2:
@@ -1481,13 +1530,15 @@ class Gen:
 
     def history(self, length: int, w_new=3.0, w_drop=2.0, w_rel=2.0, w_sweep=1.0, w_clear=0.3, w_query=2.0,
                 plain=True, w_defclass=0.0, w_churn=0.0, w_step=0.0, w_relchurn=0.0, w_bag=0.0, w_role=0.0,
-                w_clone=0.0, w_adopt=0.0):
+                w_clone=0.0, w_adopt=0.0, w_unlist=0.0):
         ops = []
         kinds = ["new", "drop", "rel", "sweep", "clear", "query", "defclass", "churn", "step", "relchurn", "bag",
                  "role", "clone"]
         weights = [w_new, w_drop, w_rel, w_sweep, w_clear, w_query, w_defclass, w_churn, w_step, w_relchurn, w_bag,
                    w_role, w_clone, w_adopt]
         kinds.append("adopt")
+        kinds.append("unlist")
+        weights.append(w_unlist)
         while len(ops) < length:
             k = self.rng.choices(kinds, weights)[0]
             op = None
@@ -1507,6 +1558,8 @@ class Gen:
                 op = self.relchurn()
             elif k == "adopt":
                 op = self.adopt_op()
+            elif k == "unlist":
+                op = self.unlist_op()
             elif k == "role":
                 op = self.role_op()
             elif k == "clone":
@@ -1534,6 +1587,14 @@ class Gen:
                 op = self.query_ops()
             if op is not None:
                 ops.append(op)
+                if op[0] == "set":
+                    f_, s_, t_ = int(op[1]), int(op[2]), int(op[3])
+                    if FIELD_KIND[f_] == "list":
+                        self.direct.append((f_, s_, t_))
+                    if f_ in (0, 2):
+                        self.inferred.append((1, s_, t_) if f_ == 0 else (1, t_, s_))
+                    elif f_ == 11:
+                        self.inferred.append((10, t_, s_))
                 if op[0] in ("set", "rel"):
                     self.targets.add(int(op[3]))
                     if op[0] == "set" and int(op[1]) in (0, 1, 2, 10, 11):
@@ -1543,6 +1604,72 @@ class Gen:
                 elif op[0] == "relchurn":
                     self.targets.add(int(op[5]))
         return ops
+
+
+def unlist_families():
+    """histories in which an item the user put into a managed LIST field leaves it by a plain list operation, dies, new
+    instances are created (CPython hands them the addresses of the dead ones) and a relation is asserted whose INFERENCE
+    targets that list: Emp.member_of (inferred from org.members.add), Org.children (inferred from child.parent = p),
+    Org.sub_of (inferred transitively); also: the removed item lives on and is asserted / inferred again"""
+    out = []
+    for how in ("lrm", "ldel", "lpop"):
+        for k, n in ((1, 1), (2, 3), (5, 6)):
+            # field 1: e.member_of.append(o_i); plain removal; o_i dies; new orgs take e as a member
+            ops = [["new", 0, 2]]
+            for i in range(k):
+                ops += [["new", 10 + i, 1], ["set", 1, 0, 10 + i], [how, 1, 0, 10 + i], ["drop", 10 + i]]
+            ops += [["sweep"]] if k == 2 else []
+            for i in range(n):
+                ops += [["new", 50 + i, 1], ["set", 2, 50 + i, 0]]
+            out.append(ops)
+            # field 10: p.children.append(c_i); plain removal; c_i dies; new children name p their parent
+            ops = [["new", 0, 1]]
+            for i in range(k):
+                ops += [["new", 10 + i, 1], ["set", 10, 0, 10 + i], [how, 10, 0, 10 + i], ["drop", 10 + i]]
+            for i in range(n):
+                ops += [["new", 50 + i, 1], ["set", 11, 50 + i, 0]]
+            out.append(ops)
+            # field 3: a.sub_of.append(b_i); plain removal; b_i dies; a.sub_of.append(m), m.sub_of.append(new c_j)
+            ops = [["new", 0, 1], ["new", 1, 1]]
+            for i in range(k):
+                ops += [["new", 10 + i, 1], ["set", 3, 0, 10 + i], [how, 3, 0, 10 + i], ["drop", 10 + i]]
+            ops += [["set", 3, 0, 1]]
+            for i in range(n):
+                ops += [["new", 50 + i, 1], ["set", 3, 1, 50 + i]]
+            out.append(ops)
+        # the removed item lives on: asserted again from either side, inferred again
+        out.append([["new", 0, 2], ["new", 1, 1], ["set", 1, 0, 1], [how, 1, 0, 1], ["set", 2, 1, 0], ["set", 1, 0, 1],
+                    [how, 1, 0, 1], [how, 1, 0, 1], ["drop", 1], ["sweep"], ["new", 2, 1], ["set", 2, 2, 0]])
+        # an item that is there by inference only leaves the list: the container still holds it (_inferred_items)
+        out.append([["new", 0, 2], ["new", 1, 1], ["set", 2, 1, 0], [how, 1, 0, 1], ["drop", 1], ["new", 2, 1],
+                    ["set", 2, 2, 0], ["set", 1, 0, 2], [how, 1, 0, 2], ["drop", 2], ["new", 3, 1], ["set", 0, 0, 3]])
+    return out
+
+
+def subclass_families():
+    """instances of a SUBCLASS (Mgr < Emp) that inherit managed fields, as targets of org.members.add: their relations are
+    inferred through the subclass's view of the field; they die, are swept, new instances (of the subclass or of the
+    declaring class) get the recycled node indices and are related to the same / a new Org"""
+    out = []
+    for c1 in (3, 2):
+        for c2 in (2, 3):
+            for sweep in (True, False):
+                for keep_org in (True, False):
+                    for order in (0, 1):
+                        tail = [["sweep"]] if sweep else []
+                        pre = [["new", 0, c1], ["new", 1, 1]] if order == 0 else [["new", 1, 1], ["new", 0, c1]]
+                        pre += [["set", 2, 1, 0], ["drop", 0]]
+                        if keep_org:
+                            # the Org lives on; its member is only reachable through it: cut by a new member set? no: the
+                            # Org is dropped too and a second Org survives
+                            pre = [["new", 5, 1]] + pre + [["drop", 1]] + tail
+                            suf = [["new", 100, c2], ["new", 101, 1], ["set", 2, 101, 100], ["set", 2, 5, 100]]
+                        else:
+                            pre = pre + [["drop", 1]] + tail
+                            suf = ([["new", 100, c2], ["new", 101, 1]] if order == 0 else
+                                   [["new", 101, 1], ["new", 100, c2]]) + [["set", 2, 101, 100]]
+                        out.append(pre + suf)
+    return out
 
 
 def overwrite_families():
